@@ -3,6 +3,7 @@
    cannot contain tuples).  This one is the default for running BatcherGen by hand. *)
 ParamN        == 2
 ParamShapeSel == {2, 5, 6}
+ParamFillSel  == {1, 4}   \* fills (indices into PayloadFill!StdFills) a request may have
 \* <<sizer, max>>; for the bytes sizer max is a class index (0 = no limit) that the check maps to bytes
 ParamConfs    == {<<"items", 2>>, <<"bytes", 1>>}
 ParamBigMax   == 2        \* a big item may sit at flat position 1..ParamBigMax of a request (bytes only)
